@@ -105,3 +105,22 @@ Theorem C05_collinear_segment : forall x0 y0 x1 y1 : R, x1 - x0 <> 0 ->
 Proof.
   intros x0 y0 x1 y1 H s x. unfold s, cubic, k_spline__segment. reval. norm_lits. cbn [tl polyval]. field. exact H.
 Qed.
+
+(* ---- binary64: the returned cubic overshoots the knot ordinates by at most the construction's running error bound ---- *)
+From Flocq Require Import Core BinarySingleNaN.
+Require Import PP.FloatModel PP.ErrorBound PP.ErrorRun.
+Theorem C05_no_overshoot_float : forall (f0 x0 y0 f1 x1 y1 : F),
+  let env := [f0; x0; y0; f1; x1; y1] in
+  (forall i, (1 <= i <= 4)%nat -> safe_run env (coef_e i)) -> B2R x0 < B2R x1 ->
+  let s := (B2R y1 - B2R y0) / (B2R x1 - B2R x0) in
+  0 <= B2R f0 <= 3 * s -> 0 <= B2R f1 <= 3 * s ->
+  let ch := map (fun i => B2R (fev env (coef_e i))) [1; 2; 3; 4]%nat in
+  let er := map (fun i => err_run env (coef_e i)) [1; 2; 3; 4]%nat in
+  forall x, B2R x0 <= x <= B2R x1 ->
+  B2R y0 - polyval er (Rabs x) <= polyval ch x <= B2R y1 + polyval er (Rabs x).
+Proof.
+  intros f0 x0 y0 f1 x1 y1 env Hs Hx s H0 H1 ch er x Hin.
+  assert (D := C04_cubic_deviation f0 x0 y0 f1 x1 y1 x Hs). cbv zeta in D. fold env ch er in D.
+  destruct (C05_no_overshoot_up (B2R f0) (B2R x0) (B2R y0) (B2R f1) (B2R x1) (B2R y1) Hx H0 H1) as [_ B].
+  specialize (B x Hin). apply Rabs_le_inv in D. lra.
+Qed.
